@@ -71,7 +71,7 @@ class Path:
     def __repr__(self): return 'Path(%s, pc=%s)' % (self.outcome, self.pc)
 
 
-def explore(thunk, hyps=(), feas=None, max_paths=400):
+def explore(thunk, hyps=(), feas=None, max_paths=400, accept_unsupported=False):
     """thunk(run) -> value.  Returns list of Path."""
     work = [[]]; out = []
     while work:
@@ -84,6 +84,9 @@ def explore(thunk, hyps=(), feas=None, max_paths=400):
             out.append(Path(run, 'raise', exc=r.name, value=r.msg))
         except InfeasiblePath:
             pass
+        except Unsupported as u:
+            if not accept_unsupported: raise
+            out.append(Path(run, 'unsupported', exc=str(u)))
         work.extend(run.alts)
         if len(out) + len(work) > max_paths:
             raise Unsupported('path explosion (> %d paths)' % max_paths)
@@ -181,6 +184,21 @@ class Interp:
         if t is ast.Assign:
             v = self.eval(n.value, env)
             for tg in n.targets: self.assign(tg, v, env)
+            return
+        if t is ast.AugAssign and isinstance(n.target, ast.Name) and isinstance(env.locals.get(n.target.id), Carried) and getattr(self, 'symloops', None) \
+                and isinstance(n.op, (ast.Add, ast.Sub)):
+            car = env.locals[n.target.id]
+            term = self.eval(n.value, env)
+            if isinstance(n.op, ast.Sub): term = L.mapv(lambda q: -q, term)
+            k = len(getattr(self.run, 'sums', []))
+            te = term.elem if isinstance(term, Arr) else term
+            sym = sp.Symbol('SUM%d_' % k, real=True)
+            if not hasattr(self.run, 'sums'): self.run.sums = []
+            self.run.sums.append({'symbol': sym, 'term': te, 'loops': list(self.symloops), 'var': n.target.id, 'pc_len': len(self.run.pc), 'line': n.lineno})
+            isarr = isinstance(car.prev, Arr) or isinstance(term, Arr)
+            prev = car.prev.elem if isinstance(car.prev, Arr) else car.prev
+            new = L.S(prev) + sym
+            env.locals[n.target.id] = Arr(new) if isarr else new
             return
         if t is ast.AugAssign:
             cur = self.eval(n.target, env)
@@ -285,6 +303,11 @@ class Interp:
                     # arr[i, j] = v on an array of vectors
                     if isinstance(base.elem, Vec): base.elem.items[int(key[1])] = v; return
                 raise Unsupported('array store with index %r' % (key,))
+            if isinstance(base, Fam):
+                if isinstance(key, sp.Basic) and key.is_number: base.special[int(key)] = v; return
+                if isinstance(key, sp.Basic) and key.is_Symbol and key.name.startswith('n_idx'):
+                    base.elem = v; base.idx = key; return
+                raise Unsupported('mode array store at index %r' % (key,))
             if isinstance(base, dict): base[key] = v; return
             if isinstance(base, list):
                 if isinstance(key, slice): base[key] = list(v)
@@ -309,6 +332,7 @@ class Interp:
         it = self.eval(n.iter, env)
         if isinstance(it, Arr): it = GenIter(it.elem)
         if isinstance(it, GList) and it.generic: it = GenIter(it[0])
+        if isinstance(it, SymRange): return self.for_sym(n, it, env)
         items = self.iterate(it)
         if items is GENERIC:
             # map loop over the request points: execute the body once on the generic element
@@ -338,6 +362,31 @@ class Interp:
             except ContinueSignal: continue
             except BreakSignal: broke = True; break
         if not broke and n.orelse: self.block(n.orelse, env)
+
+    def for_sym(self, n, it, env):
+        """series / mode loop  for k in range(<symbolic>): executed once on a generic integer index (sum-loop schema):
+        accumulators  a += term  (a defined before the loop, term not reading a) become  a + SUM_j  with the term recorded"""
+        depth = getattr(self, 'symdepth', 0)
+        idx = sp.Symbol('n_idx%d' % depth, integer=True, nonnegative=True)
+        if not isinstance(n.target, ast.Name): raise Unsupported('series loop with a non-name target')
+        if n.orelse: raise Unsupported('series loop with else')
+        for c in (sp.Ge(idx, it.start), sp.Lt(idx, it.stop)):
+            if c not in (sp.true, True) and c not in self.run.pc: self.run.pc.append(c)
+        assigned = {x.id for s_ in n.body for x in ast.walk(s_) if isinstance(x, ast.Name) and isinstance(x.ctx, ast.Store)}
+        saved = {}
+        for a in assigned - {n.target.id}:
+            if a in env.locals and not isinstance(env.locals[a], (GList, Carried)) and env.locals[a] is not UNBOUND:
+                saved[a] = env.locals[a]; env.locals[a] = Carried(a, env.locals[a])
+        env.locals[n.target.id] = idx
+        self.symdepth = depth + 1; self.symloops = getattr(self, 'symloops', []) + [(idx, it)]
+        try:
+            try: self.block(n.body, env)
+            except ContinueSignal: pass
+            except BreakSignal: raise Unsupported('break in a series loop')
+        finally:
+            self.symdepth = depth; self.symloops = self.symloops[:-1]
+        for a, v in saved.items():
+            if isinstance(env.locals.get(a), Carried): env.locals[a] = v
 
     def while_(self, n, env):
         k = 0
